@@ -11,9 +11,9 @@ R: (a) every exported command line becomes an argv of the REAL binaries, run on 
    (b) the Go harness replays the same cases at library level (real option parser ->
    CLIFilterSequence / CLIAnnotationPipeline / Distribute in one child process per command line).
 T: the harness draws random command lines (random thresholds, more occurrences) and random records far
-   outside the curated set (lengths to 300, random attributes), runs the library entry points and the
-   binaries on them and logs (options, records, what came out); OptTrace.tla re-evaluates the
-   specification on every event.
+   outside the curated set (lengths to 300, random attributes), runs the library entry points (4-15
+   records per event) and the real binaries (files of 60-400 records) on them and logs (options, records,
+   what came out); OptTrace.tla re-evaluates the specification on every event.
 """
 import json
 import os
@@ -200,8 +200,8 @@ class Runner:
                 with open(os.path.join(self.dir, name + (".fastq" if fq else ".fasta")), "w") as f:
                     f.write(render(recs, fq))
         for l, ids in data["lists"].items():
-            with open(os.path.join(self.dir, l + ".txt"), "w") as f:
-                f.write("".join(i + "\n" for i in ids))
+            with open(os.path.join(self.dir, l + ".txt"), "w") as f:    # one identifier per line, blanks around some
+                f.write("".join(("  %s\t\n" if k % 2 else "%s\n") % i for k, i in enumerate(sorted(ids))))
         self.byid = {r["id"]: r for r in data["fwd"] + data["rev"]}
         self.mate = {}
         for a, b in zip(data["fwd"], data["rev"]):
@@ -511,8 +511,11 @@ def main(ctx):
         ctx.expect_vacuity("class " + need, ctx.classes.get(need, 0) + summ["failed"])
 
     # T: random command lines x random records, judged by OptTrace ------------------------------------
-    trace = ctx.path("trace.ndjson")
+    trace, tbin = ctx.path("trace.ndjson"), ctx.path("trace_bin.ndjson")
     ctx.harness(["record", "C16", "--out", trace, "--n", 4000 if thorough else 700], timeout=1500)
+    ctx.harness(["record", "C16", "--out", tbin, "--n", 1200 if thorough else 120, "--opt", "bindir=" + runner.bindir], timeout=1500)
+    with open(trace, "a") as f:
+        f.write(open(tbin).read())
     judge_trace(ctx, trace)
 
     ctx.assumptions += [
@@ -524,7 +527,8 @@ def main(ctx):
     ]
     return ctx.finish(rule="case = one command line (set of option instances, -v, paired mode) on the curated data set, run on the real "
                            "binaries under seeded (--max-cpu, --batch-size, format, --save-discarded) configurations and at library level; "
-                           "trace event = one random command line on 4-15 random records through the library entry points")
+                           "trace event = one random command line on 4-15 random records through the library entry points, or on a file of "
+                           "60-400 random records through the real binary")
 
 
 def trace_class(ev):
@@ -538,7 +542,7 @@ def judge_trace(ctx, trace):
     events, rejects = ctx.trace_validate("OptTrace", "OptTrace.cfg", trace, timeout=1500)
     tools = {}
     for ev in events:
-        k = "trace/" + ev["tool"] + ("/paired" if ev.get("mode", "none") != "none" else "")
+        k = "trace/" + ev["level"] + "/" + ev["tool"] + ("/paired" if ev.get("mode", "none") != "none" else "")
         tools[k] = tools.get(k, 0) + 1
     for k, v in tools.items():
         ctx.classes[k] = ctx.classes.get(k, 0) + v
@@ -548,10 +552,12 @@ def judge_trace(ctx, trace):
             raise vlib.Inconclusive("the generator produced an event outside the domain of the specification: %s" % json.dumps(ev)[:600])
         got = ev["files"] if ev["tool"] == "dist" else [x["id"] for x in ev["out"]]
         ctx.violation("C16.trace.%s.%s" % (ev["tool"], r["why"]), trace_class(ev),
-                      "%s on %d random records: what came out is rejected by OptTrace (%s): %s %s" %
-                      (" ".join(ev["argv"]), len(ev["recs"]), r["why"], str(got)[:300], ev.get("msg", "")), ev)
-    for need in ("trace/grep", "trace/grep/paired", "trace/annot", "trace/dist"):
-        ctx.expect_vacuity("class " + need, ctx.classes.get(need, 0))
+                      "%s on %d random records [%s level]: what came out is rejected by OptTrace (%s): %s %s" %
+                      (" ".join(ev["argv"]), len(ev["recs"]), ev["level"], r["why"], str(got)[:300], ev.get("msg", "")), ev)
+    if not ctx.replay:
+        for need in ("grep", "grep/paired", "annot", "dist"):
+            for level in ("lib", "bin"):
+                ctx.expect_vacuity("class trace/%s/%s" % (level, need), ctx.classes.get("trace/%s/%s" % (level, need), 0))
     ctx.samples.append({"trace_event": {k: events[0][k] for k in ("tool", "argv", "pred") if k in events[0]}})
 
 
